@@ -236,8 +236,9 @@ class ModuleVistor(NodeVisitor):
             # 'MyGeneric' will be added to rawbases instead 
             # of 'MyGeneric[T]' which cannot resolve to anything.
             name_node = base_node
-            if isinstance(base_node, ast.Subscript):
-                name_node = base_node.value
+            while isinstance(name_node, ast.Subscript):
+                # A generic can be subscripted more than once: Base[T][int] is Base[int].
+                name_node = name_node.value
             
             str_base = '.'.join(node2dottedname(name_node) or \
                 # Fallback on astor if the expression is unknown by node2dottedname().
